@@ -8,7 +8,8 @@ Written from the code, node for node.
 -/
 namespace Httpcache
 
-/-- results of url.Parse(value) and reqURL.ResolveReference for a Location-like field (glue) -/
+/-- the components url.Parse delivers for the value of a Location-like field (glue), unresolved;
+    `scheme`/`host` repeat `kScheme`/`kHost` -/
 structure LocGlue where
   scheme : Str
   host : Str
@@ -19,6 +20,21 @@ structure LocGlue where
   kOpaq : Str
   kForceQuery : Bool := false
   deriving Repr
+
+/-- internal/cacheinvalidator.go resolveReference: the reference resolved against the request URL by RFC 3986
+    §5.2.2 WITHOUT removing dot segments (the keyer does that, after normalising the percent-encoding, as for a
+    request URL — url.URL.ResolveReference removes them first and by other rules) -/
+def resolveLoc (req : Req) (g : LocGlue) : LocGlue :=
+  if !g.kScheme.isEmpty then g
+  else if !g.kHost.isEmpty then { g with scheme := req.scheme, kScheme := req.scheme }
+  else
+    let t : LocGlue := { g with scheme := req.scheme, kScheme := req.scheme, host := req.host, kHost := req.host }
+    if g.kPath.isEmpty then
+      if g.kQuery.isEmpty && !g.kForceQuery then { t with kPath := req.path, kQuery := req.query, kForceQuery := req.forceQuery }
+      else { t with kPath := req.path }
+    else match g.kPath with
+      | '/' :: _ => t
+      | _ => { t with kPath := (req.path.reverse.dropWhile (· ≠ '/')).reverse ++ g.kPath }
 
 /-- the URL key of the (resolved) Location / Content-Location URL -/
 def LocGlue.key (g : LocGlue) : Str := makeURLKeyQ g.kScheme g.kHost g.kPath g.kQuery g.kOpaq g.kForceQuery
@@ -56,9 +72,9 @@ def invalidateLocation (cfg : Cfg) (req : Req) (respH : Header) (hdr : Str) (del
   if (Header.get respH hdr).isEmpty then cont deleted
   else match cfg.loc hdr with
     | none => cont deleted
-    | some g =>
-      if sameOrigin req.scheme req.host g.scheme g.host then
-        let locKey := g.key
+    | some g0 =>
+      if sameOrigin req.scheme req.host (resolveLoc req g0).scheme (resolveLoc req g0).host then
+        let locKey := (resolveLoc req g0).key
         Prog.getRefs locKey fun refs =>
           delMany deleted ((refs.getD []).map (·.id)) fun d => delOnce d locKey cont
       else cont deleted
